@@ -9,6 +9,7 @@ CONSTANTS
   Ops = {"create", "attr", "data", "link", "delete"}
   Faults = {}
   Script <- NoScript
+  CopyKeep = {}
 VIEW View
 INVARIANT TypeOK
 INVARIANT NameUnique
